@@ -381,11 +381,18 @@ func log2(d uint64) byte {
 	return k
 }
 
+// tempoPayloads returns the admissible payloads of the tempo event: 60,000,000/bpm microseconds per quarter
+// note as the nearest whole number (either neighbour when exactly halfway).
 func tempoPayloads(bpm uint64) [][]byte {
-	q := 60000000 / bpm
-	vals := []uint64{q}
-	if 60000000%bpm != 0 {
-		vals = append(vals, q+1)
+	q, rem := 60000000/bpm, 60000000%bpm
+	var vals []uint64
+	switch {
+	case 2*rem < bpm:
+		vals = []uint64{q}
+	case 2*rem > bpm:
+		vals = []uint64{q + 1}
+	default:
+		vals = []uint64{q, q + 1}
 	}
 	var out [][]byte
 	for _, v := range vals {
